@@ -723,7 +723,9 @@ class Combiner(Node):
                 self._update_worker_occupancy(action="ADD")
                 self.stats["processing_delay"].append(next_processing_time)  # Update the processing delay in stats
                 print(f"T={self.env.now:.2f}: {self.id} worker started processing item {self.item_in_process.id} ")
-                self.check_thread_state_and_update_combiner_state()  # Check and update the combiner state based on worker states
+                # packing happens here, before the worker process exists: no thread is registered
+                # yet, so the thread-count based update would charge this period to IDLE_STATE
+                self.update_state("PROCESSING_STATE", self.env.now)
                 processing_start_time = self.env.now
                 #wait for processing_delay amount of time
                 yield self.env.timeout(next_processing_time)
